@@ -123,7 +123,7 @@ type c10Scenario struct {
 	allModesQuick bool                       // quick tier runs every mode (default: the first two)
 	greetQuick    bool                       // quick tier cuts inside the greeting too
 	noHealthy     bool                       // without a cut the program ends only when the caller closes the client
-	quickStride int // quick tier: cut the long middle of the transcript at every n-th offset only
+	quickStride   int                        // quick tier: cut the long middle of the transcript at every n-th offset only
 }
 
 // c10B accumulates one scenario instance.
